@@ -22,7 +22,7 @@ ASSUMPTIONS = ['secondary/supplementary alignments are outside the claim (not ge
                'mate number is only compared for pairs whose mates are both mapped to the same contig (the third-party mate iterator de-pairs the others)',
                'worker schedules are sampled: observed completion orders are counted, not enumerated']
 MIN_NONTRIVIAL = {'quick': 40, 'thorough': 400}
-REQUIRED_MONITORS = ['run:single_process', 'run:multiprocess', 'records:compared', 'jobs:observed', 'run:no_rejects', 'layout:large_after_small',
+REQUIRED_MONITORS = ['lib:secondary_or_supplementary', 'run:single_process', 'run:multiprocess', 'records:compared', 'jobs:observed', 'run:no_rejects', 'layout:large_after_small',
                      'layout:lone_small_contig', 'lib:unmapped_pairs', 'lib:half_mapped', 'lib:orphans']
 SHARD_TIMEOUT = {'quick': 900, 'thorough': 7200}
 
@@ -105,6 +105,39 @@ def build_library(r, case_id, method):
                     recs.extend(fr)
                     truths[rid] = tr
                     rid += 1
+    # secondary / supplementary alignments: dropped by the mate pairing library and outside the claim, but BAMs contain them -
+    # also on contigs that hold nothing else (such a contig is scheduled as a job that writes no molecule)
+    if method != 'qflag' and truths and r.random() < 0.5:
+        donors = [x for x in recs if x.get('tid', -1) >= 0 and x.get('cigar')]
+        only_supp = [c for c in contigs if c not in with_reads]
+        targets = (only_supp if only_supp and r.random() < 0.7 else contigs)
+        for _ in range(r.randint(1, 6)):
+            d0 = r.choice(donors)
+            name, ln = r.choice(targets)
+            sup = dict(d0, flag=(d0['flag'] | r.choice([2048, 256])) & ~2, tid=gen.tid(name), pos=r.randrange(0, ln - 60), tags=dict(d0['tags']))
+            sup['_supplementary'] = True
+            recs.append(sup)
+            if (name, ln) not in with_reads:
+                with_reads.append((name, ln))
+    # a contig that carries only invalid fragments (nothing is left of it with --no_rejects)
+    if method == 'nla' and r.random() < 0.35:
+        empties = [c for c in contigs if c not in with_reads]
+        if empties:
+            name, ln = r.choice(empties)
+            for _ in range(r.randint(1, 3)):
+                pos = r.randrange(450, ln - 450)
+                if 'CATG' in gen.get(name)[pos - 8:pos + 12]:
+                    continue
+                gen.plant(name, pos)
+                fr, tr = F.make_fragment(gen, r, rid, case_id, 'nla', r.randint(1, 3), name, pos, r.random() < 0.5, F.rand_dna(r, 3), r.randint(60, 300), motif_ok=False)
+                if fr is None:
+                    continue
+                tr['kind'] = 'pair'
+                tr['broken'] = True
+                recs.extend(fr)
+                truths[rid] = tr
+                rid += 1
+            with_reads.append((name, ln))
     n_unmapped = r.choice([0, 1, 2, 4, 20])
     for _ in range(n_unmapped):
         recs.extend(F.unmapped_pair(r, rid, case_id, r.randint(1, 3), F.rand_dna(r, 3)))
@@ -121,6 +154,8 @@ def rec_key(a, with_mate):
 def input_keys(gen, recs, truths):
     keys = Counter()
     for rec in recs:
+        if rec.get('_supplementary'):
+            continue
         rid = F.id_from_name(rec['name'])
         t = truths[rid]
         with_mate = t.get('kind') in ('pair', 'same_orientation')
@@ -139,7 +174,7 @@ def run_case(case):
         return acc
     multi = r.random() < 0.6
     threads = r.randint(1, 4)
-    no_rejects = method != 'qflag' and r.random() < 0.25
+    no_rejects = method != 'qflag' and r.random() < 0.35
     delay_seed = r.randint(0, 10 ** 6) if r.random() < 0.8 else None
     cfg = {'method': method, 'multiprocess': multi, 'tagthreads': threads if multi else None, 'no_rejects': no_rejects, 'layout': style,
            'contigs': gen.refs, 'contigs_with_reads': with_reads, 'delay_seed': delay_seed}
@@ -147,6 +182,7 @@ def run_case(case):
     acc.count('lib:unmapped_pairs', kinds.get('unmapped', 0))
     acc.count('lib:half_mapped', kinds.get('half_mapped', 0))
     acc.count('lib:orphans', kinds.get('orphan', 0))
+    acc.count('lib:secondary_or_supplementary', sum(1 for x in recs if x.get('_supplementary')))
     lens = dict(gen.refs)
     order_with_reads = [n for n, _ in gen.refs if n in with_reads]
     small_run = 0
